@@ -6,10 +6,12 @@
 (* specification's denotation `pred = Eval(e, Scope)` in the state.        *)
 (* Every reachable state is one test vector for the Go replayer.           *)
 (***************************************************************************)
-EXTENDS HclExpr
+EXTENDS HclExpr, SequencesExt
 
 CONSTANTS MaxD,        \* nesting depth of generated ASTs
-          Level2       \* which wrapper families are allowed above depth 1: "all" | "core"
+          Level2,      \* which wrapper families are allowed above depth 1: "all" | "core" | "heredoc"
+          NParts, Part \* the leaves are split into NParts classes; this run starts from class Part (0-based)
+                       \* (several TLC processes enumerate disjoint parts of the state space in parallel)
 
 VARIABLES e, d, pred, last, fv
 
@@ -176,7 +178,8 @@ WHere(x) == {NTuple(<<x>>), NTuple(<<NVar("s"), x>>), NCall("upper", FALSE, <<x>
 
 Result(x) == Eval(x, Scope)
 
-Init == /\ e \in (IF Level2 = "heredoc" THEN HLeaves ELSE Leaves)
+LeafSeq == SetToSeq(IF Level2 = "heredoc" THEN HLeaves ELSE Leaves)
+Init == /\ \E i \in 1..Len(LeafSeq) : i % NParts = Part /\ e = LeafSeq[i]
         /\ d = 0
         /\ pred = Result(e)
         /\ last = "leaf"
